@@ -266,9 +266,11 @@ CHECKS["C17"] = dict(
     rule=("two monitors with a harness BuildHasher (hash = key / 4: keys 0..3 share the full 64-bit hash, other keys only the shard): "
           "(a) the C02 concurrent-history monitor on the memory cache (linearizability per key + foreign-value detection, incl. "
           "get_or_fetch whose in-flight table is also keyed by hash), (b) the C01 scripted-history monitor on the hybrid cache "
-          "(write queue, disk index by hash alone, overwrite/remove of one of the pair, close+reopen, both policies). Oracle: a "
-          "lookup for k returns a value whose embedded key is k and that is not stale, or a miss. Non-trivial / distinct as in "
-          "C02 and C01."),
+          "(write queue, disk index by hash alone, one key on disk while its colliding partner is only queued, overwrite/remove of "
+          "one of the pair, close+reopen, both policies). Oracle: a lookup for k returns a value whose embedded key is k, or a "
+          "miss (memory monitor: also linearizable per key); a lookup that hangs with an idle device or fails is a violation. "
+          "Staleness among a key's own versions in the hybrid cache is C01's statement and is judged there. Non-trivial / "
+          "distinct as in C02 and C01."),
     assumptions=LIN_ASSUME + HYB_ASSUME,
     min_nontrivial=20,
     jobs=[dict(cmd="c17mem", tiers=["quick", "thorough"], timeout=1500),
